@@ -14,7 +14,7 @@ from . import alg
 from .alg import E, INF, Inf, lift, AlgError, ZERO, ONE
 from .values import (Unsupported, Opaque, UNINIT, Uninit, IntSym, EnumMember, FuncVal, BoundMethod, Native,
                      Partial, ClassVal, Record, ExcVal, ExtRef, ModuleRef, Guard, Mask, MaskedArray,
-                     keyof, mkarr, cell, full, is_arr, cells)
+                     keyof, mkarr, cell, full, is_arr, cells, SymIdx, SymArr)
 
 NAN = alg.sym("nan")
 
@@ -119,7 +119,7 @@ class NumpyModel:
             if attr == "flat":
                 return list(base.flat)
             return ("method", base, attr)
-        if isinstance(base, MaskedArray):
+        if isinstance(base, (MaskedArray, SymArr)):
             return ("method", base, attr)
         if isinstance(base, (list, dict, str, tuple, set)):
             return ("method", base, attr)
@@ -146,6 +146,16 @@ class NumpyModel:
         I = self.I
         if isinstance(base, np.ndarray):
             return self.array_method(base, name, args, kwargs, node)
+        if isinstance(base, SymArr):
+            if name in ("cumsum", "copy", "sum", "astype", "flatten", "ravel"):
+                if name in ("copy", "astype"):
+                    c = SymArr(base.op, base.args)
+                    c.mods = list(base.mods)
+                    return c
+                snap = SymArr(base.op, base.args)
+                snap.mods = list(base.mods)
+                return SymArr(name, (snap,))
+            raise Unsupported(f"method {name} of a symbolically indexed array", node)
         if isinstance(base, MaskedArray):
             if name == "filled":
                 fv = cell(args[0]) if args else cell(base.fill_value)
@@ -1010,7 +1020,7 @@ class NumpyModel:
             order = sorted(range(len(cs)), key=lambda i: cs[i].cval())
             return mkarr(order).astype(object) if False else np.array(order, dtype=object)
         if self.I.perm_chooser is None:
-            return self.I.opaque("argsort of symbolic data (no ordering chosen)")
+            return SymIdx("argsort", (a,))
         perm = self.I.perm_chooser(cs)
         self.I.facts.append(("perm", cs, tuple(perm)))
         return np.array(list(perm), dtype=object)
@@ -1060,8 +1070,11 @@ class NumpyModel:
     def np_histogram(self, *a, **k):
         return self.I.opaque("histogram")
 
-    def np_searchsorted(self, *a, **k):
-        return self.I.opaque("searchsorted")
+    def np_searchsorted(self, arr, vals, **k):
+        snap = SymArr(arr.op, arr.args) if isinstance(arr, SymArr) else arr
+        if isinstance(arr, SymArr):
+            snap.mods = list(arr.mods)
+        return SymIdx("searchsorted", (snap, vals, tuple(sorted(k.items()))))
 
     def np_comb(self, n, k, **kw):
         import math
@@ -1081,7 +1094,17 @@ class NumpyModel:
     def np_default_rng(self, seed=None, **kw):
         seed = kw.get("seed", seed)
         self.I.emit("rng", ("default_rng", keyof(seed)))
-        return Opaque("rng")
+        rng = Record(None, {"seed": seed, "calls": 0}, label="Generator")
+
+        def draw(name):
+            def f(I_, *a, **k2):
+                rng.attrs["calls"] += 1
+                I_.emit("rng-draw", (name, keyof(seed), rng.attrs["calls"], keyof(a)))
+                return SymArr("rng." + name, (keyof(seed), rng.attrs["calls"], a))
+            return Native("rng." + name, f)
+        for nm in ("random", "integers", "uniform", "normal", "choice", "permutation", "shuffle"):
+            rng.native_methods[nm] = draw(nm)
+        return rng
 
     def np_delete(self, *a, **k):
         return self.I.opaque("np.delete")
